@@ -408,14 +408,54 @@ def build(tag, verbose=False, jobs=16, kissel=False):
     info["unmodelled_externals"] = unmodelled
     info["seams_used"] = sorted(u for u in und if u in SEAMS)
     info["mt_unsafe_used"] = sorted(u for u in und if u in MT_UNSAFE)
-    # atomics / lock-prefixed instructions (DESIGN §2.5)
+    # atomics / lock-prefixed instructions (DESIGN §2.5): functions that contain an atomic read-modify-write, an
+    # xchg with memory, a fence or a call to an __atomic_* helper.  A race report whose two sites both lie in such
+    # functions is downgraded to "unmodelled synchronisation": C11 atomics compile to instrumented plain accesses
+    # and the vector clocks know nothing about the ordering they establish.
+    atomic_funcs = set()
     try:
-        dis = sh(["objdump", "-d", "--no-show-raw-insn", merged])
-        info["lock_insns"] = len(re.findall(r"\block\b", dis))
+        dis = sh(["objdump", "-d", "-r", "--no-show-raw-insn", merged])
+        cur = None
+        nlock = 0
+        for ln in dis.splitlines():
+            m = re.match(r"^[0-9a-f]+ <([^>]+)>:$", ln)
+            if m:
+                cur = m.group(1)
+                continue
+            if cur is None or "__asan" in ln or "__sanitizer" in ln:
+                continue
+            t = ln.split("\t")
+            ins = t[-1] if t else ln
+            if re.match(r"\s*lock\b", ins) or re.match(r"\s*(mfence|cmpxchg)", ins) or (re.match(r"\s*xchg\b", ins) and "(" in ins) or "__atomic_" in ln:
+                atomic_funcs.add(cur)
+                nlock += 1
+        info["lock_insns"] = nlock
         info["atomic_refs"] = sorted(set(u for u in und if u.startswith("__atomic_")))
     except Exception:
         info["lock_insns"] = -1
         info["atomic_refs"] = []
+    # acquire/release loads and stores are plain moves on x86: find them in the LLVM IR of the sources instead
+    def ir_atomics(f):
+        try:
+            ir = sh([CLANG, "-O1", "-S", "-emit-llvm", "-w", "-DHAVE_CONFIG_H", "-D_GNU_SOURCE"] + inc + [os.path.join(REPO, "src", f), "-o", "-"])
+        except BuildError:
+            return set()
+        out, cur = set(), None
+        for ln in ir.splitlines():
+            m = re.match(r"^define .*@([\w.$]+)\(", ln)
+            if m:
+                cur = m.group(1)
+            elif ln.startswith("}"):
+                cur = None
+            elif cur and re.search(r"\b(load atomic|store atomic|atomicrmw|cmpxchg|fence)\b", ln):
+                out.add(cur)
+        return out
+    with cf.ThreadPoolExecutor(jobs) as ex2:
+        for r in ex2.map(ir_atomics, lib_src):
+            atomic_funcs |= r
+    info["atomic_funcs"] = sorted(atomic_funcs)
+    with open(os.path.join(bdir, "atomic_funcs.txt"), "w") as f:
+        f.write("\n".join(sorted(atomic_funcs)) + ("\n" if atomic_funcs else ""))
     exe = os.path.join(bdir, "xrlsim")
     sh([CLANGXX, "-fsanitize=address,undefined", "-g", "-o", exe] + sim_objs + [final, "-lm", "-lpthread", "-ldl"])
     with open(os.path.join(bdir, "exe.sym"), "w") as f:
@@ -440,7 +480,7 @@ def build(tag, verbose=False, jobs=16, kissel=False):
         sh([CLANGXX, "-fsanitize=address,undefined", "-g", "-o", exe_k] + sim_objs + [final_k, "-lm", "-lpthread", "-ldl"])
         with open(os.path.join(kdir, "exe.sym"), "w") as f:
             f.write(sh(["nm", "-n", "-S", "--defined-only", exe_k]))
-        for f in ("catalogue.names", "xrayvars.sym", "Crystals.dat"):
+        for f in ("catalogue.names", "xrayvars.sym", "Crystals.dat", "atomic_funcs.txt"):
             shutil.copyfile(os.path.join(bdir, f), os.path.join(kdir, f))
         os.unlink(final_k)
         os.unlink(tab_k)
